@@ -157,6 +157,18 @@ ParseMembers(s, i0, acc, dom) ==
                          ELSE IF At(s, m) = 125 THEN JOkD(m + 1, MkObj(acc2), d)
                          ELSE JFail(m)
 
+(* the deepest nesting of [ and { in a text, strings skipped (for attributing refusals to the depth limit of the JSON layer) *)
+RECURSIVE NestScan(_, _, _, _, _)
+NestScan(s, i, cur, best, instr) ==
+  IF i > Len(s) THEN best
+  ELSE LET c == s[i] IN
+       IF instr THEN (IF c = 92 THEN NestScan(s, i + 2, cur, best, TRUE) ELSE NestScan(s, i + 1, cur, best, c # 34))
+       ELSE IF c = 34 THEN NestScan(s, i + 1, cur, best, TRUE)
+       ELSE IF c \in {91, 123} THEN NestScan(s, i + 1, cur + 1, IF cur + 1 > best THEN cur + 1 ELSE best, FALSE)
+       ELSE IF c \in {93, 125} THEN NestScan(s, i + 1, cur - 1, best, FALSE)
+       ELSE NestScan(s, i + 1, cur, best, FALSE)
+NestDepth(s) == NestScan(s, 1, 0, 0, FALSE)
+
 (* a complete JSON text: one value, optional blanks around it, nothing else *)
 JsonParse(s) ==
   LET v == ParseValue(s, 1) IN
